@@ -43,6 +43,11 @@ type Strategy struct {
 	PCTSteps []int // step numbers at which the running goroutine's priority drops (Kind 2)
 	Victim   int   // goroutine id held back (Kind 3)
 	Until    int   // step at which the victim is released (Kind 3)
+	// TimerP is the per mille probability, at a step where goroutines are
+	// runnable, that the earliest pending simulated timer fires instead (the
+	// runnable goroutines were slow). With nothing runnable the clock always
+	// jumps to the next timer.
+	TimerP int
 }
 
 // StrategyNames are the names used in evidence.
@@ -92,6 +97,10 @@ type Sim struct {
 	sched    *Source
 	minPri   uint64
 	inHook   bool // the scheduler itself is executing a harness hook: yields are no-ops
+	now      int64 // simulated clock, nanoseconds since the start of the run
+	timers   []*Timer
+	timerSeq uint64
+	Fired    int // timers that fired
 }
 
 var active unsafe.Pointer // *Sim
@@ -278,6 +287,12 @@ func (s *Sim) loop() {
 		if curRunnable {
 			run = append([]*G{s.cur}, run...)
 		}
+		tm := s.nextTimer()
+		if len(run) == 0 && tm != nil {
+			// nothing can run: discrete-event time, the clock jumps to the next timer
+			s.fire(tm, "idle")
+			continue
+		}
 		if len(run) == 0 {
 			s.quiesces++
 			s.inHook = true
@@ -296,8 +311,29 @@ func (s *Sim) loop() {
 			return
 		}
 		n := len(run)
+		if tm != nil {
+			// one more alternative (the last, so that 0 stays "nothing unusual"): time
+			// passes and the earliest timer fires before any runnable goroutine moves
+			idx := s.sched.Given(n+1, func() int {
+				if tp := s.cfg.Strategy.TimerP; tp > 0 && int(s.sched.Raw()%1000) < tp {
+					return n
+				}
+				return s.pick(run, curRunnable)
+			})
+			if idx == n {
+				s.fire(tm, "early")
+				continue
+			}
+			s.runG(run[idx], idx, n)
+			continue
+		}
 		idx := s.sched.Given(n, func() int { return s.pick(run, curRunnable) })
-		g := run[idx]
+		s.runG(run[idx], idx, n)
+	}
+}
+
+func (s *Sim) runG(g *G, idx, n int) {
+	{
 		s.steps++
 		if g != s.lastRun {
 			s.switches++
@@ -313,6 +349,124 @@ func (s *Sim) loop() {
 		atomic.StoreInt32(&g.state, stRunning)
 		g.gate <- struct{}{}
 	}
+}
+
+// --- simulated time --------------------------------------------------------------
+//
+// The clock only moves when a timer fires: either because nothing else can run
+// (discrete-event time: an hour-long timeout costs one step) or because the
+// choice source decided that the runnable goroutines were slow enough for the
+// earliest deadline to pass first. Timers fire in deadline order.
+
+// Timer is a pending, fired or stopped simulated timer.
+type Timer struct {
+	s      *Sim
+	at     int64
+	seq    uint64
+	site   string
+	f      func() // runs as a new simulated goroutine when the timer fires
+	direct func() // or: runs inline in the scheduler (must not yield)
+	state  int    // 0 pending, 1 fired, 2 stopped
+}
+
+// Now returns the simulated clock in nanoseconds since the start of the run.
+func (s *Sim) Now() int64 { return s.now }
+
+// AfterFunc arranges for f to run in its own simulated goroutine once d
+// nanoseconds of simulated time have passed.
+func (s *Sim) AfterFunc(d int64, site string, f func()) *Timer {
+	return s.addTimer(d, site, f, nil)
+}
+
+// AfterDirect arranges for f to run inline in the scheduler when the timer
+// fires; f must not reach a scheduling point (it may wake goroutines and do
+// non-blocking channel sends).
+func (s *Sim) AfterDirect(d int64, site string, f func()) *Timer {
+	return s.addTimer(d, site, nil, f)
+}
+
+func (s *Sim) addTimer(d int64, site string, f, direct func()) *Timer {
+	if d < 0 {
+		d = 0
+	}
+	s.timerSeq++
+	t := &Timer{s: s, at: s.now + d, seq: s.timerSeq, site: site, f: f, direct: direct}
+	s.timers = append(s.timers, t)
+	return t
+}
+
+// Stop prevents the timer from firing. It reports whether the call stopped the
+// timer: false means it already fired (its function has been started, possibly
+// not yet run) or was stopped before — the contract of time.Timer.Stop.
+func (t *Timer) Stop() bool {
+	if t.state != 0 {
+		return false
+	}
+	t.state = 2
+	t.s.dropTimer(t)
+	return true
+}
+
+// Reset re-arms the timer; it reports whether the timer had been pending.
+func (t *Timer) Reset(d int64) bool {
+	was := t.state == 0
+	if was {
+		t.s.dropTimer(t)
+	}
+	if d < 0 {
+		d = 0
+	}
+	t.s.timerSeq++
+	t.state, t.at, t.seq = 0, t.s.now+d, t.s.timerSeq
+	t.s.timers = append(t.s.timers, t)
+	return was
+}
+
+func (s *Sim) dropTimer(t *Timer) {
+	for i, x := range s.timers {
+		if x == t {
+			s.timers = append(s.timers[:i:i], s.timers[i+1:]...)
+			return
+		}
+	}
+}
+
+// PendingTimers is the number of armed timers.
+func (s *Sim) PendingTimers() int { return len(s.timers) }
+
+func (s *Sim) nextTimer() *Timer {
+	var best *Timer
+	for _, t := range s.timers {
+		if best == nil || t.at < best.at || (t.at == best.at && t.seq < best.seq) {
+			best = t
+		}
+	}
+	return best
+}
+
+// fire advances the clock to t's deadline and starts its function.
+func (s *Sim) fire(t *Timer, why string) {
+	s.dropTimer(t)
+	t.state = 1
+	if t.at > s.now {
+		s.now = t.at
+	}
+	s.steps++
+	s.Fired++
+	s.Faults["timer-fired-"+why]++
+	s.hash = hashStr(s.hash^0x71be5, t.site)
+	if s.cfg.KeepLog {
+		s.Log = append(s.Log, fmt.Sprintf("%d: timer %s fires (%s), clock %dns", s.steps, t.site, why, s.now))
+	}
+	if t.direct != nil {
+		s.inHook = true
+		t.direct()
+		s.inHook = false
+		return
+	}
+	g := s.newG("timer<" + t.site + ">")
+	g.site = t.site
+	go s.entry(g, t.f)
 }
 
 // pick implements the generation-time scheduling strategies.
